@@ -233,3 +233,20 @@ def native_validate(rp, req_json, region, service, server_secs, provider=None, r
            'requirements': reqs or {'kind': 'none'}, 'options': opts or {'s3': False, 'url_encode_form': False},
            'provider': provider or {'result': {'secret': AWS_SECRET}}, 'log_level': log_level}
     return rp.ask(cmd)
+
+
+def assume_collision_free(m, ctx):
+    """Collision resistance of the ideal hash (a stated assumption of the forgery / selection properties): distinct
+    inputs give distinct outputs, asserted for every pair of recorded oracle calls."""
+    o = oracle_of(m)
+    for i, ci in enumerate(o.calls):
+        for cj in o.calls[:i]:
+            if ci.kind != cj.kind:
+                continue
+            if len(ci.msg) != len(cj.msg):
+                ctx.assume(z3.Not(zb(bytes_eq(ci.out, cj.out))))
+                continue
+            same_in = zb(bytes_eq(ci.msg, cj.msg))
+            if ci.kind == 'hmac':
+                same_in = z3.And(same_in, zb(bytes_eq(pad_key(ci.key), pad_key(cj.key))))
+            ctx.assume(z3.Implies(zb(bytes_eq(ci.out, cj.out)), same_in))
